@@ -18,7 +18,7 @@ func init() {
 			"(strict) the replay rejection is canonically stored >= nonce; (cas-atomic) load, compare and store of the high-water mark sit in one lock region / one badger Update transaction, " +
 			"success paths store exactly once and failing paths never; (fresh) the store is only reachable past the rejection nonce <= now - ExpireNonce, ExpireNonce evaluates to 15 minutes, " +
 			"and the persistent driver's TTL is that window plus the nonce's lead over the clock (the record outlives the nonce's freshness); (key) the entry is keyed by the identity parameter only and holds the nonce parameter; " +
-			"(same-identity) each wrapper hands the nonce store the identity and nonce it verified. Round 2: (nonce-error) every error of CheckAndSaveNonce refuses the request; (nonce-writers) no other driver method writes or deletes the nonce space.",
+			"(same-identity) each wrapper hands the nonce store the identity and nonce it verified. Round 2: (nonce-error) every error of CheckAndSaveNonce refuses the request; (nonce-writers) no other driver method writes or deletes the nonce space. Round 5: shares C04.hash-covers (the nonce is keyed by the identity as received).",
 		NotDecided: []string{"not decided: behaviour across close/reopen (C13's transaction rules), clock skew, the boundary instant of the freshness window"},
 		Exhaustive: true,
 	}
